@@ -60,6 +60,12 @@ type phOp struct {
 	Ms      int      `json:"ms,omitempty"`   // advance: virtual milliseconds
 	Via     []string `json:"via,omitempty"`  // stop: one entry per call, "lb.Stop" | "pool.Shutdown"; more than one = concurrent calls
 	With    []phOp   `json:"with,omitempty"` // stop: pool operations issued concurrently with the call(s)
+	// Janitor (stop): a janitor pass of the pool (what its 30 s ticker runs) is in progress concurrently with the
+	// call(s): "with" = started together with them, "mid-pass" = the call(s) are issued while the pass is inside
+	// the Close of a stale connection (or, if it met none, right after it). CloseYields: how many scheduler
+	// yields a Close takes while this group runs (a close that takes a moment; no clock involved).
+	Janitor     string `json:"janitor,omitempty"`
+	CloseYields int    `json:"close_yields,omitempty"`
 }
 
 type phCase struct {
@@ -113,6 +119,10 @@ func genStop(rt *rapid.T, n int) phOp {
 			op.With = append(op.With, genTraffic(rt, n))
 		}
 	}
+	if rapid.IntRange(0, 9).Draw(rt, "with_janitor") < 3 {
+		op.Janitor = rapid.SampledFrom([]string{"with", "mid-pass", "mid-pass"}).Draw(rt, "janitor")
+		op.CloseYields = rapid.SampledFrom([]int{1, 20, 200, 800}).Draw(rt, "close_yields")
+	}
 	return op
 }
 
@@ -157,7 +167,12 @@ func genPoolHistory(rt *rapid.T) phCase {
 		case k < 16:
 			c.Ops = append(c.Ops, phOp{Kind: "cleanup"})
 		default:
-			c.Ops = append(c.Ops, genStop(rt, c.N))
+			st := genStop(rt, c.N)
+			if st.Janitor != "" && rapid.Bool().Draw(rt, "stale_at_stop") {
+				// the signal lands on a janitor tick that has work to do: what is idle has just gone stale
+				c.Ops = append(c.Ops, phOp{Kind: "advance", Ms: idleMs + 1})
+			}
+			c.Ops = append(c.Ops, st)
 		}
 	}
 	return c
@@ -189,6 +204,8 @@ type phResult struct {
 	LateLanded    int // Puts accepted concurrently with a shutdown whose connection stayed open (closed by a later call)
 	ClosedHandout int // Get handed out a connection a shutdown had closed (not judged here)
 	Noop          int
+	ConcJanitor   int // shutdown groups with a janitor pass in progress
+	MidPass       int // ... issued while that pass was inside the Close of a stale connection
 	Unresponsive  int // shutdown groups issued while >= 1 open idle connection had a peer that never answers promptly
 	MaxIdleAtStop int // largest number of open idle connections a shutdown call found
 	Peers         map[string]bool
@@ -281,10 +298,12 @@ func (c phCase) inBubble(fn *lab.FakeNet, r *phResult, pre *loadbalancer.LoadBal
 	synctest.Wait() // the first probe round has been launched
 
 	var conns []*phConn
+	script := &closeScript{entered: make(chan struct{}, 1)}
 	byConn := map[net.Conn]*phConn{}
 	r.Peers = map[string]bool{}
 	newConn := func(op phOp) *phConn {
 		pc := &phConn{c: newPoolConn(op.B, op.Peer, op.DelayMs), id: len(conns), state: phHeld}
+		pc.c.script = script
 		conns = append(conns, pc)
 		byConn[pc.c] = pc
 		r.Peers[op.Peer] = true
@@ -390,8 +409,13 @@ func (c phCase) inBubble(fn *lab.FakeNet, r *phResult, pre *loadbalancer.LoadBal
 				pc.heldAtStop = true
 			}
 		}
+		var janDone atomic.Bool
+		var janPanicked atomic.Value
 		r.live.Store(func() string {
 			d := fmt.Sprintf("history op %d, shutdown call(s) %v with %d concurrent pool operation(s) running: %s", opIdx, op.Via, len(traffic), pooled())
+			if op.Janitor != "" {
+				d = fmt.Sprintf("history op %d, shutdown call(s) %v issued while a janitor pass of the pool was in progress (%s; the pass has returned: %v) and with %d concurrent pool operation(s) running: %s", opIdx, op.Via, op.Janitor, janDone.Load(), len(traffic), pooled())
+			}
 			var cs []*poolConn
 			var ids []int
 			for _, tr := range traffic {
@@ -408,6 +432,33 @@ func (c phCase) inBubble(fn *lab.FakeNet, r *phResult, pre *loadbalancer.LoadBal
 		calls := make([]*phCall, len(op.Via))
 		for i, via := range op.Via {
 			calls[i] = &phCall{via: via}
+		}
+		if op.Janitor != "" {
+			r.ConcJanitor++
+			select {
+			case <-script.entered:
+			default:
+			}
+			script.linger.Store(int32(op.CloseYields))
+			defer script.linger.Store(0)
+			passed := make(chan struct{})
+			go func() {
+				defer close(passed)
+				defer janDone.Store(true)
+				defer func() {
+					if p := recover(); p != nil {
+						janPanicked.Store(fmt.Sprint(p))
+					}
+				}()
+				pool.VerifCleanup()
+			}()
+			if op.Janitor == "mid-pass" {
+				select {
+				case <-script.entered:
+					r.MidPass++
+				case <-passed:
+				}
+			}
 		}
 		for _, cl := range calls {
 			go func(cl *phCall) {
@@ -467,6 +518,16 @@ func (c phCase) inBubble(fn *lab.FakeNet, r *phResult, pre *loadbalancer.LoadBal
 			}
 			if cl.retAt-cl.callAt > budget {
 				r.Viol = fmt.Sprintf("op %d: %s call #%d took %v of virtual time; the configured shutdown timeout is %v; %s", opIdx, cl.via, i+1, cl.retAt-cl.callAt, budget, pooled())
+				return false
+			}
+		}
+		if op.Janitor != "" {
+			if p, _ := janPanicked.Load().(string); p != "" {
+				r.Viol = fmt.Sprintf("op %d: the janitor pass running concurrently with the shutdown call(s) panicked: %s", opIdx, p)
+				return false
+			}
+			if !janDone.Load() {
+				r.Viol = fmt.Sprintf("op %d: the janitor pass running concurrently with the shutdown call(s) has not returned", opIdx)
 				return false
 			}
 		}
@@ -581,7 +642,7 @@ func (c phCase) inBubble(fn *lab.FakeNet, r *phResult, pre *loadbalancer.LoadBal
 func TestC19StopPoolHistories(t *testing.T) {
 	const name = "stop-pool-history"
 	sub := lab.Sub(name, "rapid histories in virtual time against the real balancer with websocket_pool enabled (1-3 backends, max_idle unset/1-4, idle_timeout unset/1 s/5 s/60 s/1 h, active probing off or on with probes answered or held; circuit breaker and passive checks on or off by draw, rate limiting on or off by draw when active probing is off - that balancer is built outside the bubble because of the limiter's janitor): 3-24 operations over "+
-		"{Put of a fresh fake connection, a burst of 2-12 such Puts for one backend (Helios's default max_idle is 10), Get, Put back / Close of a connection obtained from Get, virtual time passes (1 ms .. idle timeout +-1 ms .. past the janitor tick), janitor pass, shutdown call} where a shutdown call is 1-3 concurrent calls of lb.Stop() or pool.Shutdown(), optionally with 1-3 pool operations (Put fresh, Get, Put back) issued concurrently; a final lb.Stop() ends every history; "+
+		"{Put of a fresh fake connection, a burst of 2-12 such Puts for one backend (Helios's default max_idle is 10), Get, Put back / Close of a connection obtained from Get, virtual time passes (1 ms .. idle timeout +-1 ms .. past the janitor tick), janitor pass, shutdown call} where a shutdown call is 1-3 concurrent calls of lb.Stop() or pool.Shutdown(), optionally with 1-3 pool operations (Put fresh, Get, Put back) issued concurrently, and optionally while a janitor pass of the pool is in progress (started together with the call(s), or the call(s) issued while the pass is inside the Close of a stale connection, a Close taking 1-800 scheduler yields; half of these right after what is idle went stale); a final lb.Stop() ends every history; "+
 		"the other end of every fresh connection follows a drawn script - answers a Close frame at once / after 1 ms-60 s, alive but silent, alive but not reading (writes block), sends pings all the time, has closed (EOF / EPIPE), has reset - with reads and writes that block until the deadline set on the connection or its Close, as on a real TCP connection; server.timeouts.shutdown of the configuration is unset (30 s) or 1-10 s; "+
 		"oracle after EVERY shutdown call (group) has returned: each connection that was idle in the pool when it was issued (Put accepted, not handed out since, not handed out by a concurrent Get) reports closed, Stats reports no idle connection beyond the Puts accepted concurrently with the call, no call panics, every call returns (within one probe timeout of virtual time when probing is on, and never later than the configured shutdown timeout - whatever the peers of the pooled connections do); "+
 		"non-trivial = a repeat shutdown call (not the first of the history) is issued while at least one open connection is idle in the pool")
@@ -661,6 +722,12 @@ func TestC19StopPoolHistories(t *testing.T) {
 		}
 		if r.ConcStops > 0 {
 			labels = append(labels, "concurrent-stops")
+		}
+		if r.ConcJanitor > 0 {
+			labels = append(labels, "stop-with-janitor-pass-in-progress")
+		}
+		if r.MidPass > 0 {
+			labels = append(labels, "stop-while-janitor-closes-stale-connection")
 		}
 		if r.LateLanded > 0 {
 			labels = append(labels, "put-landed-after-concurrent-stop")
